@@ -12,19 +12,19 @@ Definition sb_obs_of_model (F : sb_facts) (s s' : sb_st) (o : sb_obs) : Prop :=
      exists c, sbs_calls s' = c ++ sbs_calls s /\ Exists (fun x => snd x = false) c).
 
 Lemma sb_oracle_accepts_model F fuel fr e s o :
-  sb_premises F = true -> sbfr_sandboxed fr = true -> sb_frame_ok F fr = true ->
+  sb_premises F = true -> sbfr_sandboxed fr = true -> sbfr_top fr = true -> sb_frame_ok F fr = true ->
   sb_no_hidden_global F s = true ->
   sb_obs_of_model F s (snd (sb_eval F fuel fr e s)) o ->
   sb_oracle o = None.
 Proof.
-  intros Hp Hs Hok Hg (Hb & Hc & Hh & Hu). unfold sb_oracle. rewrite Hb.
+  intros Hp Hs Ht Hok Hg (Hb & Hc & Hh & Hu). unfold sb_oracle. rewrite Hb.
   destruct (sbo_changed o) eqn:Ec.
   { exfalso. apply Hc; [reflexivity|]. apply sb_no_write; assumption. }
   destruct (sbo_hidden o) eqn:Eh.
   { exfalso. apply Hh; [reflexivity|]. apply sb_no_read_hidden; assumption. }
   destruct (sbo_unsafe_call o) eqn:Eu; [|reflexivity].
   exfalso. destruct (Hu eq_refl) as (c & C & X).
-  destruct (sb_calls_safe F fuel fr e s Hp Hs Hok) as (c' & C' & A).
+  destruct (sb_calls_safe F fuel fr e s Hp Hs Ht Hok) as (c' & C' & A).
   rewrite C in C'. apply app_inv_tail in C'. subst c'.
   apply Exists_exists in X. destruct X as (x & Hin & Hx). rewrite Forall_forall in A.
   specialize (A x Hin). congruence.
